@@ -1496,17 +1496,27 @@ class PreviewTree:
         segments = osutils.splitpath(path)
         cur_parent = self._transform.root
         for cur_segment in segments:
+            dead_match = None
             for child in self._all_children(cur_parent):
                 final_name = self._final_name_cache.get(child)
                 if final_name is None:
                     final_name = self._transform.final_name(child)
                     self._final_name_cache[child] = final_name
                 if final_name == cur_segment:
+                    if self._transform.final_kind(
+                        child
+                    ) is None and not self._transform.final_is_versioned(child):
+                        # A deleted, unversioned entry may share its name with a
+                        # live one; only answer with it if nothing else matches.
+                        dead_match = child
+                        continue
                     cur_parent = child
                     break
             else:
-                self._path2trans_id_cache[path] = None
-                return None
+                if dead_match is None:
+                    self._path2trans_id_cache[path] = None
+                    return None
+                cur_parent = dead_match
         self._path2trans_id_cache[path] = cur_parent
         return cur_parent
 
